@@ -8,7 +8,7 @@ from .. import tlc
 from ..common import Report, pmap
 from ..e2e import base_scenario, directed
 
-FAMILY = r"^files\.(counts_sum|reference|time|records|pvars)|^output\.snap"
+FAMILY = r"^files\.(counts_sum|dense_fill|reference|time|records|pvars)|^output\.snap"
 DRIVERS = {"e2e-records": ("harness.e2e", "run_e2e", "LadimTrace", FAMILY),
            "e2e-records-after-restart": ("harness.checks.c08", "restarted_only", "LadimTrace", FAMILY)}
 
@@ -16,7 +16,12 @@ DRIVERS = {"e2e-records": ("harness.e2e", "run_e2e", "LadimTrace", FAMILY),
 def scenarios(tier, seed):
     rng = random.Random(seed)
     n = 1500 if tier == "thorough" else 330
-    return [directed(rng, "deaths") if k % 3 else base_scenario(rng) for k in range(n)]
+    scs = [directed(rng, "deaths") if k % 3 else base_scenario(rng) for k in range(n)]
+    rl = random.Random(seed + 11)
+    for sc in scs:       # longitude / latitude as two more instance variables in a third of the runs (values only where the particle lives)
+        if rl.random() < 0.34:
+            sc["lonlat_out"] = True
+    return scs
 
 
 def run(tier, seed):
@@ -38,7 +43,7 @@ def run(tier, seed):
             owners.append(f)
     rep.add_tv("e2e-records-after-restart", "LadimTrace", owners, rs, tlc.validate_traces("LadimTrace", rs, batch_events=1500), family=FAMILY)
     rep.nontrivial = len({repr((s["rows"], s["kill"], s["ops"], s["numrec"], s["layout"])) for s in scs if s["kill"]})
-    rep.rule = ("random end-to-end scenarios (two thirds with 2-5 scripted deaths and freezes, particle variables, sparse/dense, split files, "
+    rep.rule = ("random end-to-end scenarios (two thirds with 2-5 scripted deaths and freezes, particle variables, lon/lat output, sparse/dense, split files, "
                 "several reference times); non-trivial = distinct (release table, kills, period, split, layout) with at least one death")
     rep.assumptions = ["files are read back with netCDF4 row by row; instance variables are written as f8/i4 so that 'the values the model state had' is exact equality"]
     return rep
